@@ -86,6 +86,13 @@ def sampleTerm (pi x0 : Rat) (t : Term) : Obs :=
   | .sinc => reg t.c 0 0 [tatom .sinc t.a t.b]
   | .sinc2 => reg t.c 0 0 [tatom .sinc t.a t.b, tatom .sinc t.a t.b]
   | .gauss => reg t.c 0 0 [tatom .gauss t.a t.b]
+  | .sincu => if pi == 0 then .unsupported else reg t.c 0 0 [tatom .sinc (t.a / pi) (t.b / pi)]
+  | .sincp al => reg t.c 0 0 [tatom .sinc t.a t.b, tatom .sinc (al * t.a) (al * t.b)]
+  | .trap al =>
+      -- lcapy's `trap.eval`: foo = |y| − 1/2;  foo ≥ α/2 ↦ 0;  foo ≤ −α/2 ↦ 1;  else 1/2 − foo/α
+      if al ≤ 0 then .unsupported else
+      let foo := rabs y - 1 / 2
+      reg (if foo ≥ al / 2 then 0 else if foo ≤ -(al / 2) then t.c else CQ.smul (1 / 2 - foo / al) t.c) 0 0 []
   | .expu k al =>
       if y == 0 then .resample
       else reg (if y < 0 then 0 else CQ.smul (y ^ k) t.c) (CQ.smul (-t.a) al) (CQ.smul (-t.b) al) []
